@@ -6,19 +6,44 @@ Local Open Scope Z_scope.
 Lemma mod64_range v : 0 <= v mod two64 < two64.
 Proof. apply Z.mod_pos_bound. reflexivity. Qed.
 
+Lemma decode1_ok l o r : decode1 l = Some (o, r) -> ok_op o.
+Proof.
+  unfold decode1. intros H.
+  repeat match type of H with
+         | match ?x with _ => _ end = _ => destruct x
+         | (let '(_, _) := ?x in _) = _ => destruct x
+         end;
+    try discriminate; inversion H; subst; cbn [ok_op]; try exact I; try apply mod64_range; apply (proj1 (mod64_range _)).
+Qed.
+
 Lemma decode_ops_ok f : forall l, Forall ok_op (decode_ops f l).
 Proof.
   induction f as [|f IH]; intros l; [constructor|].
-  cbn [decode_ops].
-  repeat match goal with
-         | |- Forall _ (match ?x with _ => _ end) => destruct x
+  cbn [decode_ops]. destruct (decode1 l) as [[o r]|] eqn:E; [|constructor].
+  constructor; [exact (decode1_ok l o r E) | apply IH].
+Qed.
+
+Lemma decode1x_ok l x r : decode1x l = Some (x, r) -> ok_xop x.
+Proof.
+  unfold decode1x. intros H.
+  assert (D : forall l', match decode1 l' with Some (o, rr) => Some (XOp o, rr) | None => None end = Some (x, r) -> ok_xop x).
+  { intros l' H'. destruct (decode1 l') as [[o rr]|] eqn:E; [|discriminate]. inversion H'; subst. exact (decode1_ok l' o _ E). }
+  repeat match type of H with
+         | match ?y with _ => _ end = _ => is_var y; destruct y
          end;
-    try (constructor; [cbn [ok_op]; try exact I; try apply mod64_range; try (apply (proj1 (mod64_range _))) | apply IH]);
-    try constructor.
+    try (match type of H with context [decode1 ?l'] => exact (D l' H) end).
+  inversion H; subst. destruct (_ =? 2); exact I.
+Qed.
+
+Lemma decode_xops_ok f : forall l, Forall ok_xop (decode_xops f l).
+Proof.
+  induction f as [|f IH]; intros l; [constructor|].
+  cbn [decode_xops]. destruct (decode1x l) as [[x r]|] eqn:E; [|constructor].
+  constructor; [exact (decode1x_ok l x r E) | apply IH].
 Qed.
 
 Definition arun_case (c : list Z) : list Z :=
   match c with
-  | k :: cap :: r => let '(ini, r') := take r in arun k cap ini (decode_ops (length r') r')
+  | k :: cap :: r => let '(ini, r') := take r in arun_x k cap ini (decode_xops (length r') r')
   | _ => []
   end.
